@@ -1,13 +1,13 @@
 """C18 — back-reference decoders agree with each other and with the length probe."""
 import vlib, gen, gen_br
 
-LEVEL = "other"
+LEVEL = "proof"
 FAMILY = "br"
 
 MANIFEST = {
- "level": 'other',
+ "level": 'proof',
  "text": "Proved for every byte string about the Gallina models of de_br.rs (current decoder with traverse_path_with_vec and ghost-pair accounting; legacy decoder) and of tools.rs serialized_length_from_bytes: both decoders refine the recursive grammar of the compressed format (same accept set, same tree, same consumed length; the only differing error kind is PathIntoAtom vs SerializationBackrefError, as in the Rust), pair_vec.len()+ghost_pairs of the current decoder equals the legacy decoder's pair count on accepted and on rejected inputs, the length probe returns the consumed length exactly on the accepted inputs and the decoder's error otherwise, no panic site (empty pop, args[arg_index], remove_ghost_pair underflow, the legacy panic!s) is reachable and the loop bound 2|b|+2 is never exhausted. Outside the model: allocator caps, the byte/bit loop of traverse_path (abstracted to the bit list of the path value, as in Model/Path.v), memory use. The model is compared with the implementation on all strings of <= 2 bytes, mutated compressed serializations and stack-aware generated streams (tree, consumed bytes, pair count after the run, error kind), and the implementation is searched for cross-decoder disagreements.",
- "note": vlib.NOTE_COMMON + " Level 'other' because the allocator caps and the bit loop of traverse_path_with_vec are outside the model; every conjunct of the statement is a theorem about the model (Props/C18.v).",
+ "note": vlib.NOTE_COMMON + " Every conjunct of the statement is a theorem about the model for all byte strings (Props/C18.v). As for C15/C16/C20 (DESIGN.md section 3) the allocator caps are not part of the model: the two decoders hit the pair cap at the same step because their pair counts agree at every step, but the probe's private allocator holds no atoms, so beyond 62.5 million atoms the probe and the decoders can differ. The byte/bit loop shared by traverse_path and traverse_path_with_vec is represented, as in Model/Path.v, by the bit list of the path value.",
  "technique": 'Coq proof (stack machines refine the recursive grammar of the compressed format; lock-step simulation between vector stack and list stack) + model/implementation differential run + implementation cross-decoder search',
 }
 
